@@ -138,6 +138,15 @@ def _task(task, p):
         for j in np.nonzero(bad)[0][:3]:
             p.violation("edge_relation", {"entry": "gu_i16", "x": X[j].tolist()}, {"kind": "mk", "entry": "gu_i16", "x": X[j].tolist()},
                         f"S({X[j].tolist()}) = {Sc[j]} but S(prefix) = {Sp[j]} and the appended point contributes {inc[j]}")
+    # the same patterns spread over the whole int16 range (differences beyond 32767 must not wrap)
+    if n <= 6:
+        st = _st()
+        k = R.max(axis=1) + 1
+        Wd = np.where(k[:, None] > 1, -32000 + (R * (64000 // np.maximum(k - 1, 1))[:, None]), 0).astype(np.int64)
+        ow = [np.asarray(a) for a in st._mann_kendall_trend_gu(Wd.astype("int16"))]
+        for i in range(len(pats)):
+            compare(Wd[i], (ow[0][i], ow[1][i], ow[2][i], ow[3][i]), ref_mk([int(v) for v in Wd[i]]), p, "wide_range", "gu_i16")
+        p.count("wide_range", evaluations=len(pats), states=len(pats), traces_validated_against_impl=len(pats), nontrivial=int((k > 1).sum()))
     # symmetries as relations between implementation outputs
     st = _st()
     base = [np.asarray(a) for a in outs["gu_i16"]]
@@ -247,6 +256,23 @@ def accessor(ctx):
                         if not (np.all(tail[0] == -9999) and np.all(tail[1] == -9999) and np.all(tail[2] == -9999) and np.all(tail[3] == -2)):
                             ctx.violation(sub, {"what": what, "pixel": "all nodata"}, {"kind": "acc"},
                                           f"{what}: an all-nodata pixel gave tau={tail[0][0]} p={tail[1][0]} slope={tail[2][0]} trend={tail[3][0]} (expected nodata, -2)")
+    # nodata = 0 as attribute: an all-zero pixel is entirely nodata
+    with warnings.catch_warnings():
+        warnings.simplefilter("ignore")
+        Z = np.concatenate([X[:7] + 10, np.zeros((1, n), dtype=np.int64)])
+        for dtype in ("int16", "float32"):
+            for backend in ("numpy", "dask"):
+                da = xr.DataArray(Z.astype(dtype).reshape(2, 4, n), dims=("y", "x", "time"), coords={"time": time}, attrs={"nodata": 0})
+                if backend == "dask":
+                    da = da.chunk({"y": 1, "x": 3, "time": -1})
+                ds = da.hdc.algo.mktrend()
+                o = [ds[v].values.reshape(-1) for v in ("tau", "pvalue", "slope", "trend")]
+                ctx.count(sub, evaluations=8, nontrivial=1)
+                if not (o[0][7] == 0 and o[1][7] == 0 and o[2][7] == 0 and o[3][7] == -2):
+                    ctx.violation(sub, {"what": "nodata attribute 0", "dtype": dtype, "backend": backend}, {"kind": "acc"},
+                                  f"mktrend with attrs nodata=0 [{dtype},{backend}]: the all-nodata pixel gave tau={o[0][7]} p={o[1][7]} slope={o[2][7]} trend={o[3][7]} (expected 0, 0, 0, -2)")
+                for i in range(7):
+                    compare(Z[i], (o[0][i], o[1][i], o[2][i], o[3][i]), ref_mk([int(v) for v in Z[i]]), ctx, sub, f"mktrend[nodata=0,{dtype},{backend}]")
     # yxt driver
     r = np.asarray(st.mann_kendall_trend_yxt(X.astype("int16").reshape(N, 1, n))).reshape(N, 4)
     for i in range(N):
